@@ -1362,7 +1362,7 @@ class Engine:
             if em is not None and rec == rec_of(pointee(nb.type or '')):
                 T, F = S, S.copy()
                 uni = self.universe(em[1], None)
-                for v in (va, vb)[:1]:
+                for v in (va, vb):
                     q = v.path + '->' + em[0]
                     cur = F.vs.get(q)
                     if uni and (cur is None or cur[0] != 'in'):
@@ -1985,8 +1985,13 @@ def derive_entry_facts(W, engines, skip_units=(), max_rounds=6):
         for un, f, i, suf in cand:
             W.entry_facts.setdefault((un, f), set()).add((i, suf))
             W.record_calls.add(f)
+        spins = 0
         while True:
+            spins += 1
+            if spins > 40:
+                raise AnalysisBroken('the preconditions on marker-ended lists do not reach a fixpoint')
             todo = set()
+            lifts = {}
             for (un, f) in W.entry_facts:
                 todo.add((un, f))
                 todo |= callers.get(f, set())
@@ -2013,6 +2018,15 @@ def derive_entry_facts(W, engines, skip_units=(), max_rounds=6):
                             sites.append('%s:%s' % (cu, g))
                             if not good:
                                 ok = False
+                                # the argument is (a successor of) the caller's own parameter: the caller may in turn rely on its callers
+                                if v is not None and v.path is not None:
+                                    root = _root(v.path)
+                                    pid = root.split('@', 1)[1] if '@' in root else None
+                                    full = v.path[len(root):] + suf
+                                    if (pid in e.param_idx and full.replace('->' + em[2], '') == '' and full.count('->') <= 2 and g not in taken
+                                            and len(W.fn_unit.get(g, ())) == 1 and callers.get(g) and (cu, g, e.param_idx[pid], full) not in dropped
+                                            and (e.param_idx[pid], full) not in W.entry_facts.get((cu, g), ())):
+                                        lifts.setdefault((un, f, i, suf), set()).add((cu, g, e.param_idx[pid], full))
                         if not any(c == f for node, c, S, vals in e.calls):
                             ok = False       # a call the engine did not reach/record
                     if not ok or not sites:
@@ -2021,6 +2035,13 @@ def derive_entry_facts(W, engines, skip_units=(), max_rounds=6):
                         kept.setdefault((un, f), {})[(i, suf)] = sorted(set(sites))
             if not failing:
                 break
+            lifted = [k for k in failing if k in lifts]
+            if lifted:
+                for k in lifted:
+                    for cu, g, j, full in lifts[k]:
+                        W.entry_facts.setdefault((cu, g), set()).add((j, full))
+                        W.record_calls.add(g)
+                continue          # try again with the callers' own preconditions assumed (they are verified in the same loop)
             for un, f, i, suf in failing:
                 dropped.add((un, f, i, suf))
                 W.entry_facts[(un, f)].discard((i, suf))
